@@ -18,6 +18,7 @@ import XzVerif.Model.Memusage
 import XzVerif.Model.MemusageBuild
 import XzVerif.Model.Memlimit
 import XzVerif.Model.Lzma
+import XzVerif.Model.LzmaEnc
 import XzVerif.Gen.C16
 
 namespace XzVerif.Kernels
@@ -39,6 +40,12 @@ macro "kernel_fin" : tactic => `(tactic| first | omega | with_reducible rfl | (s
 macro "kernel_arith" : tactic =>
   `(tactic| ((try dsimp only) <;> (repeat' (split <;> try dsimp only)) <;>
       first | kernel_fin | (simp_all; (repeat' split) <;> kernel_fin)))
+
+/-- equality of two `Bool`s that are `decide`s / `&&`s of linear-arithmetic facts -/
+macro "kernel_bool" : tactic =>
+  `(tactic| (rw [Bool.eq_iff_iff] <;>
+             simp only [decide_eq_true_eq, Bool.and_eq_true, Bool.or_eq_true, Bool.not_eq_true', decide_eq_false_iff_not] <;>
+             constructor <;> intro <;> omega))
 
 /-! ## Variable-length integers and Index size arithmetic (vli_size.c, index.h, index.c) — C02, C13 -/
 
@@ -248,5 +255,230 @@ theorem stream_buffer_bound_eq (n : Nat) (h : n < U64) : Kernels.lzma_stream_buf
 theorem is_backward_size_valid_eq (bs : Nat) : Kernels.is_backward_size_valid bs = Container.isBackwardSizeValid bs := by
   unfold Kernels.is_backward_size_valid Container.isBackwardSizeValid Container.BACKWARD_SIZE_MIN Container.BACKWARD_SIZE_MAX
   simp only [and_assoc, ge_iff_le]
+
+/-! ## Memory-usage estimates (lz_decoder.c, lzma_decoder.c, lzma2_decoder.c, outqueue.c, index.c) — C09, C13 -/
+
+/-- `lzma_lz_decoder_memusage`, with the struct size and LZ_DICT_EXTRA of the build under test
+    (no wrap for any dictionary size below 2^63; the callers pass 32-bit values). -/
+theorem lz_decoder_memusage_eq (d : Nat) (h : d < 9223372036854775808) :
+    Kernels.lzma_lz_decoder_memusage d = Memusage.lzDecoderMemusage Memusage.thisBuild d := by
+  unfold Kernels.lzma_lz_decoder_memusage Memusage.lzDecoderMemusage Memusage.thisBuild Memusage.LZ_DICT_REPEAT_MAX
+  simp only [C09.szLzDecoder, C09.lzDictExtra]
+  omega
+
+/-- `lzma_lzma_decoder_memusage_nocheck(options)` as a function of `options->dict_size` (a `uint32_t`) -/
+theorem lzma_decoder_memusage_nocheck_eq (o : Memusage.LzmaOpts) (h : o.dict < U32) :
+    Kernels.lzma_lzma_decoder_memusage_nocheck o.dict = Memusage.lzmaDecoderMemusageNocheck Memusage.thisBuild o := by
+  unfold U32 at h
+  unfold Kernels.lzma_lzma_decoder_memusage_nocheck Memusage.lzmaDecoderMemusageNocheck
+  rw [lz_decoder_memusage_eq o.dict (by omega)]
+  unfold Memusage.lzDecoderMemusage Memusage.thisBuild Memusage.LZ_DICT_REPEAT_MAX
+  simp only [C09.szLzDecoder, C09.lzDictExtra, C09.szLzma1Decoder]
+  omega
+
+/-- `lzma_lzma2_decoder_memusage(options)` -/
+theorem lzma2_decoder_memusage_eq (o : Memusage.LzmaOpts) (h : o.dict < U32) :
+    Kernels.lzma_lzma2_decoder_memusage o.dict = Memusage.lzma2DecoderMemusage Memusage.thisBuild o := by
+  unfold Kernels.lzma_lzma2_decoder_memusage Memusage.lzma2DecoderMemusage
+  rw [lzma_decoder_memusage_nocheck_eq o h]
+  unfold U32 at h
+  unfold Memusage.lzmaDecoderMemusageNocheck Memusage.lzDecoderMemusage Memusage.thisBuild Memusage.LZ_DICT_REPEAT_MAX
+  simp only [C09.szLzDecoder, C09.lzDictExtra, C09.szLzma1Decoder, C09.szLzma2Decoder]
+  omega
+
+/-- `lzma_outq_outbuf_memusage` -/
+theorem outq_outbuf_memusage_eq (n : Nat) (h : n < 9223372036854775808) :
+    Kernels.lzma_outq_outbuf_memusage n = Memusage.outbufMemusage Memusage.thisBuild n := by
+  unfold Kernels.lzma_outq_outbuf_memusage Memusage.outbufMemusage Memusage.thisBuild
+  simp only [C09.szOutbuf]
+  omega
+
+/-- `lzma_outq_memusage` for every `(uint64_t, uint32_t)` argument pair; UINT64_MAX is the model's `none`. -/
+theorem outq_memusage_eq (buf threads : Nat) :
+    Kernels.lzma_outq_memusage buf threads = ofOpt (Memusage.outqMemusage Memusage.thisBuild buf threads) := by
+  unfold Kernels.lzma_outq_memusage Memusage.outqMemusage Memusage.THREADS_MAX Memusage.UINT64_MAX
+  by_cases hb : threads > 16384 ∨ buf > 281474976710655
+  · have : threads > 16384 ∨ buf > 18446744073709551615 / (2 * 16384) / 2 := by omega
+    simp [hb, ofOpt]
+  · have hn : ¬ (threads > 16384 ∨ buf > 18446744073709551615 / (2 * 16384) / 2) := by omega
+    simp only [hb, if_false, ofOpt]
+    rw [outq_outbuf_memusage_eq buf (by omega)]
+    have e1 : 2 * threads % 4294967296 = 2 * threads := by omega
+    rw [e1]
+    have hx : Memusage.outbufMemusage Memusage.thisBuild buf ≤ 281474976710655 + 65536 := by
+      unfold Memusage.outbufMemusage Memusage.thisBuild; simp only [C09.szOutbuf]; omega
+    generalize Memusage.outbufMemusage Memusage.thisBuild buf = x at *
+    have : 2 * threads * x ≤ 32768 * (281474976710655 + 65536) := Nat.mul_le_mul (by omega) hx
+    exact Nat.mod_eq_of_lt (by omega)
+
+/-- `lzma_index_memusage` for every pair of `lzma_vli` arguments against the C13 model (same wrap-arounds, same guards;
+    the model's sizeof constants are those of this build). -/
+theorem index_memusage_eq_index (streams blocks : Nat) (hs : streams < U64) (hb : blocks < U64) :
+    Kernels.lzma_index_memusage streams blocks = Index.memusage streams blocks := by
+  unfold U64 at hs hb
+  unfold Kernels.lzma_index_memusage Index.memusage Index.SIZEOF_VOID_PTR Index.SIZEOF_INDEX_STREAM Index.SIZEOF_INDEX_GROUP
+    Index.INDEX_GROUP_SIZE Index.SIZEOF_INDEX_RECORD Index.SIZEOF_LZMA_INDEX Index.U64 Index.UINT32_MAX Index.VLI_MAX
+  simp only [Nat.reduceMul, Nat.reduceAdd, Nat.reduceSub, Nat.reduceDiv]
+  by_cases hA : streams = 0 ∨ streams > 4294967295 ∨ blocks > 9223372036854775807
+  · rw [if_pos (by omega), if_pos (by omega)]
+  · have e1 : ((blocks + 512) % 18446744073709551616 + 18446744073709551616 - 1) % 18446744073709551616 = blocks + 511 := by omega
+    have e2 : (blocks + 512 - 1) % 18446744073709551616 = blocks + 511 := by omega
+    have e3 : streams * 296 % 18446744073709551616 = streams * 296 := by omega
+    simp only [e1, e2, e3]
+    generalize (blocks + 511) / 512 = g
+    by_cases hG : g > 2225717190360708
+    · rw [if_pos (by omega), if_pos (by omega)]
+    · have hg' : g * 8288 < 18446744073709551616 := by omega
+      have e4 : g * 8288 % 18446744073709551616 = g * 8288 := Nat.mod_eq_of_lt hg'
+      have e5 : (18446744073709551503 + 18446744073709551616 - streams * 296) % 18446744073709551616 = 18446744073709551503 - streams * 296 := by omega
+      have e6 : (112 + streams * 296) % 18446744073709551616 = 112 + streams * 296 := by omega
+      simp only [e4, e5, e6]
+      by_cases hL : 18446744073709551503 - streams * 296 < g * 8288
+      · rw [if_pos (by omega), if_pos (by omega)]
+      · rw [if_neg (by omega), if_neg (by omega)]
+        exact Nat.mod_eq_of_lt (by omega)
+
+theorem index_memusage_eq_memusage_aux (b : Memusage.Build) (streams blocks : Nat) (hs : streams < U64) (hb : blocks < U64)
+    (h1 : b.szVoidPtr = 8) (h2 : b.szIndexStream = 168) (h3 : b.szIndexGroup = 64) (h4 : b.szIndexRecord = 16) (h5 : b.szIndex = 80) :
+    Kernels.lzma_index_memusage streams blocks = ofOpt (Memusage.indexMemusage b streams blocks) := by
+  unfold U64 at hs hb
+  unfold Kernels.lzma_index_memusage Memusage.indexMemusage Memusage.INDEX_GROUP_SIZE Memusage.UINT64_MAX
+    Memusage.UINT32_MAX Memusage.VLI_MAX
+  rw [h1, h2, h3, h4, h5]
+  simp only [Nat.reduceMul, Nat.reduceAdd, Nat.reduceSub, Nat.reduceDiv]
+  by_cases hA : streams = 0 ∨ streams > 4294967295 ∨ blocks > 9223372036854775807
+  · rw [if_pos (by omega), if_pos (by omega)]; rfl
+  · have e1 : ((blocks + 512) % 18446744073709551616 + 18446744073709551616 - 1) % 18446744073709551616 = blocks + 511 := by omega
+    have e2 : blocks + 512 - 1 = blocks + 511 := by omega
+    have e3 : streams * 296 % 18446744073709551616 = streams * 296 := by omega
+    simp only [e1, e2, e3]
+    generalize (blocks + 511) / 512 = g
+    by_cases hG : g > 2225717190360708
+    · rw [if_pos (by omega), if_pos (by omega)]; rfl
+    · have hg' : g * 8288 < 18446744073709551616 := by omega
+      have e4 : g * 8288 % 18446744073709551616 = g * 8288 := Nat.mod_eq_of_lt hg'
+      have e5 : (18446744073709551503 + 18446744073709551616 - streams * 296) % 18446744073709551616 = 18446744073709551503 - streams * 296 := by omega
+      have e6 : (112 + streams * 296) % 18446744073709551616 = 112 + streams * 296 := by omega
+      simp only [e4, e5, e6]
+      by_cases hL : 18446744073709551503 - streams * 296 < g * 8288
+      · rw [if_pos (by omega), if_pos (by omega)]; rfl
+      · rw [if_neg (by omega), if_neg (by omega)]
+        exact Nat.mod_eq_of_lt (by omega)
+
+/-- … and against the C09 model, which is written without wrap-around (`none` = UINT64_MAX). -/
+theorem index_memusage_eq_memusage (streams blocks : Nat) (hs : streams < U64) (hb : blocks < U64) :
+    Kernels.lzma_index_memusage streams blocks = ofOpt (Memusage.indexMemusage Memusage.thisBuild streams blocks) :=
+  index_memusage_eq_memusage_aux Memusage.thisBuild streams blocks hs hb rfl rfl rfl rfl rfl
+
+/-! ## LZMA properties bytes and state macros (lzma_decoder.c, lzma_encoder.c, lzma2_decoder.c, lzip_decoder.c, lzma_common.h) -/
+
+/-- `is_lclppb_valid(options)` as a function of the three `uint32_t` members -/
+theorem is_lclppb_valid_eq (lc lp pb : Nat) (h1 : lc < U32) (h2 : lp < U32) :
+    Kernels.is_lclppb_valid lc lp pb = Container.lclppbValid lc lp pb
+    ∧ Kernels.is_lclppb_valid lc lp pb = Memusage.lclppbValid { dict := 0, lc := lc, lp := lp, pb := pb } := by
+  unfold U32 at h1 h2
+  unfold Kernels.is_lclppb_valid Container.lclppbValid Memusage.lclppbValid Container.LCLP_MAX Container.PB_MAX Memusage.LCLP_MAX Memusage.PB_MAX
+  constructor <;> kernel_bool
+
+/-- `lzma_lzma_lclppb_encode(options, byte)`: (returned bool, `*byte` afterwards) -/
+theorem lclppb_encode_eq (lc lp pb b0 : Nat) (h1 : lc < U32) (h2 : lp < U32) :
+    Kernels.lzma_lzma_lclppb_encode lc lp pb b0
+      = match Container.lclppbEncode lc lp pb with | none => (true, b0) | some v => (false, v) := by
+  unfold Kernels.lzma_lzma_lclppb_encode Container.lclppbEncode
+  rw [(is_lclppb_valid_eq lc lp pb h1 h2).1]
+  by_cases hv : Container.lclppbValid lc lp pb = true
+  · simp only [hv, not_true_eq_false, if_false, if_true]
+    unfold Container.lclppbValid Container.LCLP_MAX Container.PB_MAX at hv
+    simp only [decide_eq_true_eq] at hv
+    congr 1
+    omega
+  · simp [hv]
+
+/-- `lzma_lzma_lclppb_decode(options, byte)` for all 256 bytes: returns true exactly where the model rejects, and
+    otherwise stores the model's lc/lp/pb (the incoming members do not matter unless `byte > 224`). -/
+theorem lclppb_decode_eq (byte lc0 lp0 pb0 : Nat) (h : byte < 256) :
+    (Kernels.lzma_lzma_lclppb_decode byte lc0 lp0 pb0).1 = (Container.lclppbDecode byte).isNone
+    ∧ ∀ r, Container.lclppbDecode byte = some r → Kernels.lzma_lzma_lclppb_decode byte lc0 lp0 pb0 = (false, r) := by
+  have hind : Kernels.lzma_lzma_lclppb_decode byte lc0 lp0 pb0
+      = if byte > 224 then (true, lc0, lp0, pb0) else Kernels.lzma_lzma_lclppb_decode byte 0 0 0 := by
+    unfold Kernels.lzma_lzma_lclppb_decode; split <;> rfl
+  have hall : ∀ b, b < 256 → (Kernels.lzma_lzma_lclppb_decode b 0 0 0).1 = (Container.lclppbDecode b).isNone
+      ∧ ∀ r, Container.lclppbDecode b = some r → b ≤ 224 ∧ Kernels.lzma_lzma_lclppb_decode b 0 0 0 = (false, r) := by
+    decide +kernel
+  rw [hind]
+  have := hall byte h
+  by_cases hb : byte > 224
+  · have hn : Container.lclppbDecode byte = none := by
+      unfold Container.lclppbDecode; rw [if_pos (by omega)]
+    simp [hb, hn]
+  · simp only [hb, if_false]
+    exact ⟨this.1, fun r hr => (this.2 r hr).2⟩
+
+/-- `lzma_lzma2_props_decode(&options, allocator, props, props_size)` (allocation assumed to succeed):
+    (lzma_ret, `opt->dict_size`, `opt->preset_dict_size`) for every property byte; a size other than 1 is LZMA_OPTIONS_ERROR. -/
+theorem lzma2_props_decode_eq :
+    (∀ b, b < 256 → Kernels.lzma_lzma2_props_decode 1 b
+        = match Container.lzma2DictDecode b with | none => (8, 0, 0) | some d => (0, d, 0))
+    ∧ ∀ n b, n ≠ 1 → Kernels.lzma_lzma2_props_decode n b = (8, 0, 0) := by
+  constructor
+  · decide +kernel
+  · intro n b hn
+    unfold Kernels.lzma_lzma2_props_decode
+    rw [if_pos hn]
+
+/-- The dictionary-size byte of a .lz header (fragment of `lzip_decode`, case SEQ_DICT_SIZE): LZMA_DATA_ERROR (= 9,
+    encoded 10 = 9 + 1) where the model rejects, else falls through with the model's dictionary size and lc/lp/pb = 3/0/2. -/
+theorem lzip_dict_size_eq : ∀ ds, ds < 256 → Kernels.lzip_dict_size ds
+    = match Memlimit.lzipDict ds with | none => (10, 0, 0, 0, 0) | some d => (0, d, 3, 0, 2) := by
+  decide +kernel
+
+/-- Cross-check of the fragment against the COMPILED decoder: the table Gen/C16.lean obtains by running `lzip_decode`
+    on all 256 dictionary-size bytes (0 = rejected, else dictionary size + 1). -/
+theorem lzip_dict_size_matches_running_code :
+    Gen.C16.lzipDictTable = (List.range 256).map (fun ds =>
+      if (Kernels.lzip_dict_size ds).1 = 0 then (Kernels.lzip_dict_size ds).2.1 + 1 else 0) := by
+  decide +kernel
+
+/-- The state-update macros of lzma_common.h for every `uint32_t` state value (`update_literal_matched` is only used
+    on non-literal states, i.e. `state ≥ 7`; below 3 the C expression would wrap). -/
+theorem state_macros_eq (s : Nat) (h : s < U32) :
+    Kernels.update_literal s = Lzma.updateLiteral s ∧ Kernels.update_literal_normal s = Lzma.updateLiteralNormal s
+    ∧ (3 ≤ s → Kernels.update_literal_matched s = Lzma.updateLiteralMatched s) ∧ Kernels.update_match s = Lzma.updateMatch s
+    ∧ Kernels.update_long_rep s = Lzma.updateLongRep s ∧ Kernels.update_short_rep s = Lzma.updateShortRep s
+    ∧ Kernels.is_literal_state s = Lzma.isLiteralState s := by
+  unfold U32 at h
+  unfold Kernels.update_literal Kernels.update_literal_normal Kernels.update_literal_matched Kernels.update_match Kernels.update_long_rep
+    Kernels.update_short_rep Kernels.is_literal_state Lzma.updateLiteral Lzma.updateLiteralNormal Lzma.updateLiteralMatched Lzma.updateMatch
+    Lzma.updateLongRep Lzma.updateShortRep Lzma.isLiteralState Lzma.LIT_STATES
+  refine ⟨?_, ?_, ?_, ?_, ?_, ?_, ?_⟩
+  · kernel_arith
+  · kernel_arith
+  · intro h3; kernel_arith
+  · kernel_arith
+  · kernel_arith
+  · kernel_arith
+  · kernel_bool
+
+/-- `get_dist_state(len)` for every match length (`len ≥ MATCH_LEN_MIN`; below it the C expression wraps) -/
+theorem get_dist_state_eq (len : Nat) (h1 : 2 ≤ len) (h2 : len < U32) : Kernels.get_dist_state len = Lzma.getDistState len := by
+  unfold U32 at h2
+  unfold Kernels.get_dist_state Lzma.getDistState Lzma.DIST_STATES Lzma.MATCH_LEN_MIN
+  kernel_arith
+
+/-- `literal_mask_calc(lc, lp)` on the whole domain of LZMA1/LZMA2 (lc ≤ 8 as in the decoder's struct, lp ≤ 4) -/
+theorem literal_mask_calc_eq : ∀ lc, lc ≤ 8 → ∀ lp, lp ≤ 4 → Kernels.literal_mask_calc lc lp = Lzma.literalMask lc lp := by
+  decide +kernel
+
+/-! ## Distance slots (fastpos.h) — C01, C02 -/
+
+/-- `get_dist_slot` (the table version compiled into this build, with the linked `lzma_fastpos[]`) is the bit-scan
+    definition used by the C02 model (`lzma_lzma2_props_encode`) and by the C01 encoder model, for every `uint32_t`. -/
+theorem get_dist_slot_eq (d : Nat) (h : d < U32) :
+    Kernels.get_dist_slot d = Container.getDistSlot d ∧ Kernels.get_dist_slot d = LzmaEnc.getDistSlot d := by
+  have h1 := KernelLemmas.get_dist_slot_eq d h
+  refine ⟨h1, ?_⟩
+  rw [h1]
+  unfold Container.getDistSlot LzmaEnc.getDistSlot LzmaEnc.log2
+  simp only [Nat.and_one_is_mod]
 
 end XzVerif.Kernels
